@@ -63,9 +63,16 @@ def register(E):
         'clastic.route._compile_path_pattern', trusted=False,
         params={'pattern': TStr, 'mode': TStr},
         returns=TTuple([TObj('Regex'), TDict(TStr, TConv)]),
-        ensures=['keys(result[1]) == BINDINGS(pattern)'],
+        ensures=['keys(result[1]) == BINDINGS(pattern)', 'result[0] is COMPILED_REGEX(pattern, mode)'],
         raises={'clastic.route.InvalidPattern': None},
         prop=[], note='caller-side summary; the function itself is verified under C05'))
+
+    @E.spec('COMPILED_REGEX')
+    def COMPILED_REGEX(I, ctx, pattern, mode):
+        """the regular expression _compile_path_pattern builds for (pattern, slash mode): a function of the two"""
+        r = Z.func('COMPILED_REGEX', Z.Str, Z.Str, Z.Obj)(pattern.z, mode.z)
+        ctx.assume(r != Z.NONE)
+        return VObj(r, 'Regex')
 
     @E.spec('BINDINGS')
     def BINDINGS_(I, ctx, pattern):
@@ -173,6 +180,8 @@ def register(E):
         # error rendering follows the binding application unless opted out
         'self.render_error is (app.error_handler.render_error if k_rebind_render_error else route.render_error)',
         'keys(self.converters) == BINDINGS(self.pattern)',
+        # the matcher is compiled for the bound pattern in the bound route's own (effective) slash mode
+        'self.regex is COMPILED_REGEX(self.pattern, self.slash_mode)',
         # C04: no name is offered by two sources on the bound route
         'forall_str(lambda n: SRC3(n, keys(self.converters), keys(self.resources)) + '
         'CNTM(n, self.middlewares, len(self.middlewares)) <= 1)',
@@ -485,3 +494,21 @@ def verify_converters(pc, E):
     for o in res.obligations:
         pc.add_item(Item(o.clause.replace('route.build_converter.<single_converter>', 'C05.K/single_converter'),
                          'K', o.pc, o.goal, o.func, o.lineno, o.note, dict(o.extra, trail=o.trail)))
+
+
+def dispatch_support(pc, E, skip=()):
+    """Every call-site summary Application.dispatch's proof relies on is itself an obligation: the functions the
+    summaries stand for are verified here (match_path never raises and returns None or the converter names;
+    normalize_path; execute / execute_error hand inject the stated mapping; the error renderers return the error
+    they were given).  A property whose proof uses dispatch includes this support, so a change that breaks a
+    summary is seen by that property's check and not only by the property the callee 'belongs' to."""
+    done = getattr(pc, '_dispatch_support_done', set())
+    pc._dispatch_support_done = done
+    for name, fn in (('match_path', verify_match_path), ('normalize', verify_normalize), ('execute', verify_execute)):
+        if name in skip or name in done:
+            continue
+        done.add(name)
+        fn(pc, E)
+    if 'render_error' not in skip and 'render_error' not in done:
+        done.add('render_error')
+        pc.add_functions(E, ['clastic.errors.ErrorHandler.render_error', 'clastic.application.default_render_error#verify'])
